@@ -74,7 +74,8 @@ Definition spspps_cached (s : rmx_st) : bool :=     (* videoSeqHeaderCached: len
 Definition ts_on_frame (s : rmx_st) (video : bool) (dts ctsv : N) (key : bool) (rawlen : N) : rmx_st * ts_ev :=
   let base0 := if video then ts_vbase s else ts_abase s in
   let base := match base0 with Some b => b | None => dts end in
-  let dts' := if dts <? base then dts else dts - base in
+  (* rebaseDts (lal fix of C06 F-23): a dts below the base keeps its distance on the 33-bit clock *)
+  let dts' := if dts <? base then (8589934592 - (base - dts) mod 8589934592) mod 8589934592 else dts - base in
   let pts' := dts' + 90 * ctsv in
   let boundary :=
     if video then key && (negb (ts_asc s) || negb (ts_opened s) || negb (ts_acache s =? 0))
